@@ -44,9 +44,8 @@ impl ForNextCounterMatch {
                 ExpressionType::BuiltIn(_) => Ok(()),
                 _ => Err(LintError::TypeMismatch.at_pos(*pos)),
             },
-            _ => panic!(
-                "It should not be possible for the FOR variable to be something other than a variable"
-            ),
+            // an array element, a record member of an array element, etc: QBasic wants a plain variable
+            _ => Err(LintError::VariableRequired.at_pos(*pos)),
         }
     }
 
